@@ -43,6 +43,11 @@ def run(P, rep, tier):
     rep.attempt(r2_case_analysis, P, rep, ctx)
     rep.attempt(r3_status, P, rep, ctx)
     rep.attempt(r4_wiring, P, rep, ctx)
+    # the snapshots that are compared come from dir_hashsums: every directory (also an empty one) and every entry is in
+    # them (structure rule of C19.R4)
+    from . import c19
+
+    rep.attempt(c19.r4_structure, P, rep, ctx)
     rep.floor("C18.R1", 5)
     rep.floor("C18.R2", 12)
     rep.floor("C18.R3", 5)
@@ -276,6 +281,14 @@ def r2_case_analysis(P, rep, ctx):
 
 
 # ------------------------------------------------------------------------------------------- R3
+def _nonempty_test(test: ast.AST, name: str) -> bool:
+    """`while xs:` / `while len(xs) > 0:` / `while len(xs) != 0:` / `while len(xs) >= 1:`"""
+    from mdsa.cfg import polarity
+
+    a, neg = polarity(test)
+    return not neg and norm(a) in (name, f"len({name})")
+
+
 def r4_wiring(P, rep, ctx):
     """The small functions everything else is read through: the diff object holds the comparison of exactly the two given
     trees; the kind of an entry (directory / symlink / file / nothing) is decided by its hashsum-tree value; annotate lists
@@ -285,7 +298,7 @@ def r4_wiring(P, rep, ctx):
     pv, cv = fi.params[1], fi.params[2]
     rets = [v for _, v in f.returns() if v is not None]
     rv = rets[0].id if len(rets) == 1 and isinstance(rets[0], ast.Name) else None
-    st = [i for i, v, b in f.stores(f"{rv}._diff_root") if norm(f.g.nodes[i].stmt.value) in (f"DiffNode.compare({pv}, {cv}, Path(''))", f"DiffNode.compare({pv}, {cv}, Path())", f"DiffNode.compare({pv}, {cv}, Path('.'))")] if rv else []
+    st = [i for i, v, b in f.stores(f"{rv}._diff_root") if f.x_at(i, f.g.nodes[i].stmt.value) in (f"DiffNode.compare({pv}, {cv}, Path(''))", f"DiffNode.compare({pv}, {cv}, Path())", f"DiffNode.compare({pv}, {cv}, Path('.'))")] if rv else []
     rep.check(bool(st) and f.hit_before(f.g.exit, nodes=st), "C18.R4", fi.qual, "the diff object stores DiffNode.compare(prev, curr, <root path>) before it is returned", fi.loc(), construct="DirDiff.compare root",
               message="DirDiff.compare does not store the comparison of (prev, curr) as the root of the returned object: every diff is empty / belongs to other trees")
     # kind of an entry
@@ -413,7 +426,7 @@ def r3_status(P, rep, ctx):
         shortest_first = False
         for nm_, dropped in lists.items():
             pops = [c_ for c_ in local_calls(gtfi.node) if MM.match(f"{nm_}.pop()", c_) is not None]
-            loops_w = [n_ for n_ in gt.g.nodes if n_.kind == "loop" and norm(n_.stmt.test) == nm_]
+            loops_w = [n_ for n_ in gt.g.nodes if n_.kind == "loop" and _nonempty_test(n_.stmt.test, nm_)]
             rev = [n_ for n_ in gt.g.nodes if n_.kind == "for" and norm(n_.stmt.iter) in (f"reversed({nm_})", f"{nm_}[::-1]", f"reversed({nm_}[:-1])")]
             if (loops_w and len(pops) >= (1 if dropped else 2)) or (rev and (dropped or any("[:-1]" in norm(n_.stmt.iter) for n_ in rev) or pops)):
                 shortest_first = True
